@@ -37,6 +37,8 @@ pub mod vsock_ref;
 pub mod c17;
 pub mod c18;
 pub mod c19;
+pub mod c20;
+pub mod c20_sound;
 pub mod replay;
 
 pub use engine::chooser::{choose, deviate};
